@@ -68,7 +68,13 @@ def parse_methods(REPO):
                 ps.append((n.strip(), " ".join(t.split())))
             ret = " ".join(ret.replace("->", "").split())
             dm = re.search(r"(?:Appends|Insert)s? an? Op(\w+) instruction", doc or "")
-            methods.append({"name": name, "params": ps, "ret": ret, "file": f, "doc_op": dm.group(1) if dm else None})
+            doc_op = dm.group(1) if dm else None
+            if doc_op is None and f != "mod.rs":
+                # the doc comment may have been reworded: the opcode the body passes to Instruction::new
+                nxt = src_nt.find("pub fn ", m.end())
+                bm = re.search(r"spirv::Op::(\w+)", src_nt[m.end(): nxt if nxt > 0 else len(src_nt)])
+                doc_op = bm.group(1) if bm else None
+            methods.append({"name": name, "params": ps, "ret": ret, "file": f, "doc_op": doc_op})
     return methods
 
 
